@@ -46,7 +46,7 @@ def _normalize_material_property(
                     value[2][1],
                     value[2][2],
                 )
-            elif isinstance(value[0], float) and isinstance(value[1], float) and isinstance(value[2], float):
+            elif all(isinstance(v, (int, float)) and not isinstance(v, bool) for v in value):
                 # Diagonally anisotropic: 3-tuple (x, y, z)
                 return (value[0], 0.0, 0.0, 0.0, value[1], 0.0, 0.0, 0.0, value[2])
             else:
